@@ -1,37 +1,53 @@
 /-
   C02  An excluded or filtered-out host is never contacted; all others survive.
-  PROPERTY THEOREMS ONLY (helper lemmas live in PdshVerif/Opt/ExcludeLemmas.lean and
+  PROPERTY THEOREMS ONLY (helper lemmas: PdshVerif/Opt/Exclude{Lemmas,Filter,Compose,Order,Contact}.lean and
   PdshVerif/Hostlist/Lemmas{Find,FindComplete,DeleteName,Delete,Pop}.lean).
 
-  Model: PdshVerif/Opt/Exclude.lean (opt.c exclusion / filter path over the editable host list of
-  C16).  Spec: PdshVerif/Opt/ExcludeSpec.lean.  `cfg : Cfg` carries the defect switches (probed
-  from the code on every run); theorems hold for all variants unless they name a switch.
+  Model: PdshVerif/Opt/Exclude.lean (opt.c exclusion / filter path over the editable host list of C16) — the
+  definitions `pdshmodel hl xcl` executes.  Spec: PdshVerif/Opt/ExcludeSpec.lean.  `cfg : Cfg` carries the defect
+  switches (probed from the code on every run); theorems hold for all variants unless they name a switch.
 
-  Proved:
-   * whole-name matching, both directions: `hostlist_find` reports only positions that hold exactly
-     the name (zero padding, digit-ending prefixes, wider numbers) and — for names whose trailing
-     digit run is ≤ 2^25 — finds every name the list denotes;
-   * every variant: an exclusion never removes a host with another name (count preserved);
-   * repaired D1: `wcoll_apply_excluded` leaves exactly the hosts no entry names, order and
-     multiplicity kept;  unchanged: witness that a host named twice survives;
-   * the buffer loop of `list_push_hostlist`: repaired terminates within 12 doublings, unchanged
-     never ends from 4095 bytes on (D2);
-   * the specification is order independent.
-  Witnesses (`decide`): D1, F02-2BR, F02-BIGSUFFIX end to end through `cliFinal`.
-   * repaired D19: `hostlist_filter_regex` (iterate + `hostlist_remove`) leaves exactly the hosts
-     the filter keeps, and `wcoll_apply_regex` the hosts that pass every filter (order, multiplicity);
-   * COMPOSITION (`exclusion_correct`): with D1, D17, D19 repaired, for one-bracket target words and
-     small names, the words `wcoll_arg_process` sees lead to exactly
-     targets.filter (not excluded) |>.filter (passes every regex) — assembling, exclusion stack,
-     filter stack and `wcoll_expand` chained, record identities / iterators / bounds tracked through.
-  NOT proved: the same for the UNCHANGED `hostlist_remove` (D19: the iterator revisits hosts; the
-  test is idempotent, covered by the correspondence runs); `^file` words and `-x`/`-w` option
-  splitting are outside the composition theorem (files: C10; splitting: `evWords` is executable).
+  clause of the property text                               theorem
+  --------------------------------------------------------  ---------------------------------------------------------
+  (the oracle of the check is the theorems' right side)     `oracle_is_spec`
+  final list = assembled targets minus every occurrence     `exclusion_correct` (words), `exclusion_correct_options`
+    of every excluded host, filters applied                   (-w / -x arguments: list_split, the dash of -x),
+                                                              `file_contents_to_contacted` (file CONTENTS, includes,
+                                                              WCOLL, two-bracket words: C10's theorem imported)
+  -x list / `-` word / -x ^file / -^file                    `exclusion_correct_options`; files: C10
+                                                              `target_list_end_to_end` + `excluded_file_same_reader`
+  /re/ keeps only matches, dash /re/ removes all matches    `filterRegex_hosts`, `applyRegex_hosts`,
+                                                              `filter_keep_drop_complement`, `filter_matches_everything`,
+                                                              `filter_matches_nothing`
+  regardless of the order of targets, exclusions, filters   `model_order_independent`, `grouping_independent` (the MODEL),
+                                                              `spec_order_independent` (the specification)
+  whole names exactly (foo1 / foo10 / foo01 / foo1-ib)      `find_complete` + C16 `find_sound`, `delete_host_exact`,
+                                                              `exclusion_only_named`
+  survivors keep relative order and multiplicity            `exclusion_repaired`, `filterRegex_hosts` (list equalities)
+  never CONTACTED / the others are contacted                `excluded_never_contacted` (C03's fan-out LTS imported)
+  always terminates whatever the size of the exclusions     `pipeline_terminates`, `pushHostlist_terminates`,
+                                                              `exclusion_file_whole`; FALSE from 2^22 - 1 bytes of
+                                                              ranged exclusion FILE on: `exclusion_file_cut`
+                                                              (F02-XFILE-4MIB, open), `exclusion_file_repaired`;
+                                                              unchanged D2: `pushHostlist_unchanged_diverges`
+  Witnesses (`decide`): D1, F02-2BR end to end through `cliFinal`; instances derived THROUGH the theorems:
+  `exclusion_correct_instance`, `exclusion_correct_options_instance`, the examples after each theorem.
+
+  What is assumed of regcomp / regexec: see the note in section "regex filters" (nothing about WHAT matches).
+
+  NOT proved: `hostlist_filter_regex` for the UNCHANGED `hostlist_remove` (D19: the iterator revisits hosts; the
+  test is idempotent; correspondence only — /repo carries the repair); exclusion words whose names have a numeric
+  tail > 2^25 (`SmallName`, F16-BIGSUFFIX at the library level); an exclusion FILE whose ranged text reaches 4 MiB
+  (the model stops with `ub`, the real pdsh is compared with the specification only); that dsh.c refines C03's
+  LTS and that `dsh()` numbers the targets in list order (C03's trace correspondence; C01 `iter_all`).
 -/
 import PdshVerif.Opt.ExcludeContact
+import PdshVerif.Opt.ExcludeBridge
+import PdshVerif.Props.C10
 
 namespace PdshVerif.C02
-open PdshVerif.Hostlist PdshVerif.Opt PdshVerif.Opt.Exclude
+open PdshVerif.Hostlist PdshVerif.Opt.Exclude
+open PdshVerif.Opt hiding Str Cfg Env Fixes
 
 /-! ### whole-name matching -/
 /-- FIND is COMPLETE on small names: a name the records denote is found (`SmallName`: the name's
@@ -224,6 +240,23 @@ theorem pipeline_terminates (cfg : Cfg) (hD1 : cfg.fixDeleteAll = true) (hD17 : 
     (cliWords cfg env (ws.map CW.text)).ends = true :=
   cliWords_ends cfg hD1 hD17 hD19 env ws hd
 
+/-- THE ORACLE IS THE THEOREM'S RIGHT-HAND SIDE: the executable specification `ExcludeSpec.final` (what
+    `pdshmodel hl xspec` prints; the real pdsh is compared with it on every generated command line) and the
+    `specWords` of `exclusion_correct` are the same list, for command lines whose words the text-level reading
+    (`ExcludeSpec.names`, i.e. C01's `Spec.classify`) reads as what they mean (`ReadsRight`, decidable per command
+    line; in general it is C01's statement about `classify`) -/
+theorem oracle_is_spec (env : Env) (ws : List CW) (hr : ReadsRight ws)
+    (ho : ∀ p ∈ regs ws, ∀ h ∈ Spec.expand₁ (tgts ws), (env.rematch p.2 h).isSome = true) :
+    ExcludeSpec.final (specEnv env) (ws.map CW.item) = .hosts (specWords env ws) :=
+  final_eq_specWords env ws hr ho
+
+/-- hence model = oracle, by the two theorems, on the demo command line -/
+example : cliWords Cfg.repaired demoEnv (demoWords.map CW.text) = .ok ["foo1".toList, "bar".toList] ∧
+    ExcludeSpec.final (specEnv demoEnv) (demoWords.map CW.item) = .hosts ["foo1".toList, "bar".toList] := by
+  refine ⟨demo_correct, ?_⟩
+  rw [oracle_is_spec demoEnv demoWords ⟨by decide, by decide⟩ demo_domain.oracle]
+  decide
+
 /-! ### up to the hosts contacted (C02 ∘ C03) -/
 /-- NEVER CONTACTED / ALL OTHERS SURVIVE, at the level of `rcmd_connect`.  `hosts`: what `opt_args` leaves in
     `opt->wcoll` for the words `ws` (C02's model); `dsh()` makes one target per host, in list order, and C03's
@@ -354,5 +387,65 @@ theorem two_bracket_witness :
     shownRes (cliFinal Cfg.repaired noEnv [.w "foo[1-2]-[0-1]".toList, .x "foo[1-2]-0".toList]) =
       ["foo1-1", "foo2-1"] := by
   decide
+
+/-! ### from the file CONTENTS to the hosts contacted (C10 ∘ C02 ∘ C01 ∘ C03) -/
+section EndToEnd
+open PdshVerif.Opt.Targets
+open PdshVerif.Opt.Wcoll (LineMode FS)
+
+/-- what the whole command line means: every target word expanded (C01's `expand₂`, two bracket levels), the words
+    of `^files` standing where the file stands (includes inlined), WCOLL's file when no option names a target —
+    minus every name an exclusion word or exclusion file denotes, filtered by every regex -/
+def meant (mode : LineMode) (fs : FS) (rematch : List Char → List Char → Option Bool) (badre : List Char → Bool)
+    (segs : List Seg) (wenv : Option (List Char × List Spec.Word)) : List (List Char) :=
+  ((Spec.expand₂ (tgtWords segs wenv)).filter fun h => !(segs.flatMap Seg.xnames).contains h).filter
+    (keepAll (envOf mode fs rematch badre segs wenv) (segs.flatMap Seg.reg))
+
+/-- THE WHOLE CHAIN.  Starting from the CONTENTS of the files (`fs`; comments, blank lines and `#include`s read by
+    C10's model of wcoll.c), the TEXT of the option words (`segs.map Seg.text`: target words with one or two
+    bracket pairs, caret-file words, exclusion words and files, filters) and the WCOLL variable, with D1, D17, D19
+    and F02-2BR repaired (as /repo is) and inside C10's decidable `targetDomain`:
+      * `opt_args` ends with exactly `meant` in `opt->wcoll` (C10 `target_list_end_to_end`, which chains C10's
+        reader, this file's `exclusion_correct` machinery and C01's `wcoll_expand₂`), and
+      * in every execution of the fan-out over that list (C03: any schedule, fanout, wait construct) the hosts a
+        connect is started for are targets no exclusion names and every filter passes, no list position twice —
+        and exactly the list once `dsh()` has returned. -/
+theorem file_contents_to_contacted (cfg : Cfg) (hD1 : cfg.fixDeleteAll = true) (hD17 : cfg.fixIterSuffix = true)
+    (hD19 : cfg.fixRemoveDepth = true) (h2Br : cfg.fix2Br = true) (mode : LineMode) (fs : FS)
+    (rematch : List Char → List Char → Option Bool) (badre : List Char → Bool) (segs : List Seg)
+    (wenv : Option (List Char × List Spec.Word))
+    (hdom : targetDomain cfg mode fs rematch badre segs wenv = true)
+    (v : Dsh.Fan.Variant) (f : Nat) (ls : List Dsh.Fan.Label) (s : Dsh.Fan.St)
+    (he : Dsh.Fan.Exec (Dsh.Fan.init v f (meant mode fs rematch badre segs wenv).length) ls s) :
+    targetList cfg (envOf mode fs rematch badre segs wenv) (wenv.map (·.1)) (segs.map Seg.text) =
+      .ok (meant mode fs rematch badre segs wenv) ∧
+    (∀ h ∈ contacted (meant mode fs rematch badre segs wenv) ls,
+      h ∈ Spec.expand₂ (tgtWords segs wenv) ∧ h ∉ segs.flatMap Seg.xnames ∧
+      keepAll (envOf mode fs rematch badre segs wenv) (segs.flatMap Seg.reg) h = true) ∧
+    (started ls).Nodup ∧
+    (Dsh.Fan.Final s → (contacted (meant mode fs rematch badre segs wenv) ls).Perm
+      (meant mode fs rematch badre segs wenv)) := by
+  refine ⟨PdshVerif.Props.C10.target_list_end_to_end cfg hD1 hD17 hD19 h2Br mode fs rematch badre segs wenv hdom,
+    fun h hm => ?_, (started_nodup_lt he).1, fun hf => contacted_perm _ he hf⟩
+  have := contacted_mem _ ls h hm
+  unfold meant at this
+  obtain ⟨h1, h2⟩ := List.mem_filter.mp this
+  obtain ⟨h3, h4⟩ := List.mem_filter.mp h1
+  refine ⟨h3, ?_, h2⟩
+  intro hx
+  have h5 : ¬ h ∈ segs.flatMap Seg.xnames := by simpa using h4
+  exact h5 hx
+
+/-- non-vacuity: C10's site (a target file with an include, a two-bracket word, an exclusion file with the same
+    include, a drop filter) is in the domain and means five hosts — the hypotheses can be met, and the list is
+    obtained THROUGH the theorem -/
+example : targetDomain Cfg.repaired .whole PdshVerif.Props.C10.siteFS PdshVerif.Props.C10.siteMatch (fun _ => false)
+      PdshVerif.Props.C10.siteSegs none = true ∧
+    meant .whole PdshVerif.Props.C10.siteFS PdshVerif.Props.C10.siteMatch (fun _ => false)
+      PdshVerif.Props.C10.siteSegs none =
+    ["n1".toList, "n2".toList, "r1n1".toList, "r2n1".toList, "r2n2".toList] := by
+  constructor <;> decide
+
+end EndToEnd
 
 end PdshVerif.C02
